@@ -21,6 +21,11 @@ func (t *Dense) Inner(other Tensor) (retVal interface{}, err error) {
 		return nil, errors.Wrapf(err, unsupportedDtype, t.t, "Inner")
 	}
 
+	// the specialised engines read both backing arrays as their own element type
+	if other.Dtype() != t.t {
+		return nil, errors.Errorf(typeMismatch, t.t, other.Dtype())
+	}
+
 	// check both are vectors
 	if !t.Shape().IsVector() || !other.Shape().IsVector() {
 		return nil, errors.Errorf("Inner only works when there are two vectors. t's Shape: %v; other's Shape %v", t.Shape(), other.Shape())
